@@ -173,6 +173,16 @@ func (f *frame) evalCommon(in ssa.Instruction) bool {
 			return true
 		}
 		t := x.binop(in.Op, at, bt, in.X.Type(), in.Y.Type(), in.Type())
+		if in.Op == token.ADD && bt == "1" && !x.X.bvMode && !f.pure {
+			// increment of the hidden index of a `for range` loop: the engine-supplied (and
+			// checked) invariant index < length <= MaxInt64 excludes wrap-around, so the sum is
+			// written without the wrap test (keeps index terms usable as quantifier patterns)
+			if ld, ok := in.X.(*ssa.UnOp); ok && ld.Op == token.MUL {
+				if a, ok := ld.X.(*ssa.Alloc); ok && a.Comment == "rangeindex" {
+					t = sx("+", at, "1")
+				}
+			}
+		}
 		if t == "" {
 			t = x.havocPure("binop", x.X.sortOf(in.Type()))
 		}
